@@ -299,10 +299,11 @@ def evaluate_cases(mod, cases, timeout):
     compare = getattr(mod, 'compare', None)
     for c, irs in zip(cases, impl_replies):
         k += 1  # the reset line
+        base = k
         stats['tags'][c.get('tag', '')] = stats['tags'].get(c.get('tag', ''), 0) + 1
         for i, (line, ir) in enumerate(zip(c['lines'], irs)):
+            k = base + i   # (a `break` below must not shift the replies of the following cases)
             mr = model_flat[k] if model_flat is not None else 'no-driver'
-            k += 1
             stats['lines'] += 1
             if ir.startswith('err') or ir == 'timeout':
                 stats['errors'][ir] = stats['errors'].get(ir, 0) + 1
@@ -322,6 +323,7 @@ def evaluate_cases(mod, cases, timeout):
                 findings[-1].line_index = i
                 findings[-1].model = mr
                 break
+        k = base + len(c['lines'])
     return findings, stats, impl_replies
 
 
